@@ -1155,8 +1155,10 @@ def rule_lft(S):
 
 
 def run(S):
-    S.undecided = ['that the returned set equals the interval (endpoint translation between layers, ordering, '
-                   'values) - runtime data; R-MAX decides only that the truncation test dominates every growth',
+    S.undecided = ['that the returned set equals the interval as a whole (the endpoint translation when descending into '
+                   'a next layer, ordering across borders, values) - runtime data; decided parts: R-FLT (the endpoint '
+                   'filter of an entry that fits its slice, as a decision table), R-LFT (every visited border gets the '
+                   'walk\'s endpoints), R-MAX (the truncation test dominates every growth)',
                    'R-INF covers the scan family (interface_scan.h, scan_helper.h); the cursor API is covered by C10']
     S.assumptions = ['a (string_view, scan_endpoint) parameter pair is recognised by adjacency in the parameter list']
     rule_inf(S)
